@@ -17,6 +17,12 @@ CLAIMED = {
          "Spec functions are hand transcriptions of the protobuf encoding document (assumption A5). Not under contract: struct/map layout closures, TypeOf table."),
  "C16": ("Partial: for every primitive and scalar encode function, for every destination length: enough room => (size, nil) and exactly the spec bytes, less room => an error, and every store lies inside b[0:size] (frame obligations), never at or beyond len(b).",
          "Not under contract: struct/slice/map/message/custom encode closures (remaining-space checks of combinators)."),
+ "C04": ("Partial: every Writer method of both protocols appends exactly the specified bytes and the matching Reader method returns the specified value for those bytes (so Read after Write is the identity for every primitive, field/list/map header and length); Encoder/Decoder Reset rebuild the protocol flags exactly as NewEncoder/NewDecoder do and keep the strict bit; the struct decoder's seen/required bitmap indexing is in bounds for every id range.",
+         "Not under contract: reflect-driven struct/list/map encoders and decoders (structEncoder.encode, decodeFunc*Of closures). Trusted: io.Writer/io.Reader/bytes/bufio/encoding-binary varint functions behave as documented for an in-memory stream; Protocol.Features() reports only defined features."),
+ "C08": ("Partial: every Reader method of both protocols is total (no panic) on every input stream, returns sizes and lengths in [0, MaxInt32], returns bare io.EOF only when nothing at all was available and an unexpected-EOF/other error for every truncation, and advances the stream position exactly past what it decoded; dontExpectEOF never returns io.EOF; the struct decoder closure's bitmap indexing is in bounds.",
+         "Not under contract: allocation from wire sizes in ReadBytes/ReadMessage and reflect.MakeSlice/MakeMapWithSize, skip* recursion depth, Unmarshal trailing-bytes rule, MissingField/TypeMismatch reporting (reflection-driven decoder). Trusted: io.ReadFull / ReadByte / binary.ReadUvarint contracts for an in-memory stream."),
+ "C13": ("Writer and Reader methods of both protocols against byte layouts transcribed from the Apache Thrift binary and compact protocol specifications: big-endian fixed-width integers and doubles, length-prefixed binaries, field/list/map headers, zig-zag varints, delta short form, size short form below 15, one-byte empty map, message headers; readers accept long forms. 14 obligations fail on the current tree and are recorded as open known findings (binary protocol type codes, 3-byte stop field, message header version/type, compact double endianness); each has a '.actual' clause pinning the present behaviour so that any other deviation is still reported.",
+         "Spec functions are hand transcriptions of the two protocol documents (no reference implementation offline). Trusted: io / bytes / bufio / encoding-binary functions as documented."),
  "C19": ("Partial: seen-field bitmap sizing and indexing (makeFieldset/has/set), MessageRewriter.Rewrite panic-freedom and termination for every rewriter length and every field number the wire allows, Parse's field windows, EncodeTag/DecodeTag inverse.",
          "Not under contract: JSON template compilation (parseRewriteTemplate*, reflection + json), embddedRewriter splice, Append layout; Rewriter implementations called through the interface are havoc."),
 }
@@ -28,13 +34,10 @@ NOT_APPLICABLE = {
 NOT_YET = {
  "C01": "not built yet (json encoders): no contract is claimed until its obligations discharge",
  "C02": "not built yet (json decoders)",
- "C04": "not built yet (thrift round trip)",
  "C05": "not built yet (json syntax-only paths)",
  "C06": "not built yet (json panic-freedom)",
- "C08": "not built yet (thrift decoding totality)",
  "C10": "not built yet (json memory ownership)",
  "C11": "not built yet (json.Decoder framing)",
- "C13": "not built yet (thrift wire format)",
  "C14": "not built yet (json flags)",
  "C15": "not built yet (json.Append prefix/capacity obliviousness)",
  "C17": "not built yet (json.Tokenizer)",
